@@ -34,8 +34,8 @@ LEVEL_NOTE = ("Trusted: Lean kernel + standard axioms; hand-written model tied b
               "width via the formatter). Known finding D28 (styled cell longer than its column) is outside the generator.")
 LEAN_MODULES = ["Clikit.Props.C14"]
 REQUIRED_THEOREMS = ["Clikit.Props.C14." + t for t in (
-    "wrap_len", "wrap_content", "fit_sum", "fit_pos", "fit_ok", "short_cols_keep", "render_ok", "col_width_const",
-    "rect", "within_terminal", "cell_text_preserved", "styles_ok")]
+    "wrap_len", "wrap_content", "wrap_nonempty_lines", "fit_sum", "fit_pos", "fit_ok", "short_cols_keep", "render_ok", "col_width_const",
+    "rect", "rect_equal", "within_terminal", "cell_text_preserved", "styles_ok", "right_border_solid")]
 RULE = ("random tables: 1-6 columns x 1-6 rows, header or not, cells = word sequences of total length 0..1500 "
         "(empty cells, single words up to 300 chars, repeated/leading blanks, newlines; style-tagged words only in "
         "columns that cannot be wrapped: max visible length * columns <= available width, or the whole table fits), "
